@@ -5,6 +5,7 @@ import (
 	"errors"
 	"fmt"
 	"path/filepath"
+	"time"
 
 	"github.com/elementsproject/peerswap/messages"
 	"github.com/elementsproject/peerswap/peersync"
@@ -21,6 +22,7 @@ type nodeExtra struct {
 	psInc   int
 	// connectivity as the node's lightning daemon reports it (ListPeers)
 	disconnected map[int]bool
+	servedAt     map[string]time.Duration // task/chain -> when it was last told the height
 }
 
 // ---------------------------------------------------------------------------
